@@ -8,6 +8,7 @@
 
 #include <etl/cmath.hpp>
 
+#include <cfenv>
 #include <climits>
 #include <cmath>
 
@@ -148,6 +149,10 @@ constexpr auto build_binary_values()
     b.add(T(5.5));
     b.add(T(7));
     b.add(T(1e10L) + T(0.3L));
+    b.add(T(3.14159265358979323846L));
+    b.add(T(1e-5L));
+    b.add(T(123456.789L));
+    b.add(T(1e22L));
     b.add(pow2<T>(63));
     b.add(L::max());
     b.add(L::infinity());
@@ -319,24 +324,41 @@ struct F_copysign {
     static constexpr bool nan_sign    = true;
     constexpr auto operator()(Args<T, 2> const& p) const { return etl::copysign(p.a[0], p.a[1]); }
 };
-C13_B(F_fmin, fmin)
-C13_B(F_fmax, fmax)
-
-// the mathematically defined result raises overflow / invalid / divide-by-zero: such a call need not be a
-// constant expression.  Decided with glibc on the harness side (never used as oracle for the values).
-template <typename... A>
-inline bool fp_exception(T ref, A... args)
+// fmin/fmax of (+0, -0) / (-0, +0): C (7.12.12, footnote) and IEEE 754-2008 minNum/maxNum leave the sign of the
+// result unspecified, so those two pairs have no exactly specified result and are outside the compared domain
+inline bool zeros_of_opposite_sign(Args<T, 2> const& p)
 {
-    bool const any_nan = (isnan_(args) || ...);
-    bool const all_fin = ((!isnan_(args) && !isinf_(args)) && ...);
-    return (!any_nan && isnan_(ref)) || (all_fin && isinf_(ref));
+    return p.a[0] == T(0) && p.a[1] == T(0) && sgnbit(p.a[0]) != sgnbit(p.a[1]);
+}
+struct F_fmin {
+    static constexpr char const* name = "fmin";
+    static bool in_domain(Args<T, 2> const& p) { return !zeros_of_opposite_sign(p); }
+    constexpr auto operator()(Args<T, 2> const& p) const { return etl::fmin(p.a[0], p.a[1]); }
+};
+struct F_fmax {
+    static constexpr char const* name = "fmax";
+    static bool in_domain(Args<T, 2> const& p) { return !zeros_of_opposite_sign(p); }
+    constexpr auto operator()(Args<T, 2> const& p) const { return etl::fmax(p.a[0], p.a[1]); }
+};
+
+// Does the mathematically defined operation raise overflow / underflow / invalid / divide-by-zero?  Such a call
+// need not be a constant expression.  Decided by running glibc's function under a cleared floating-point
+// environment on the harness side (glibc is never used as oracle for the values).
+template <typename Fn, typename Arg>
+[[gnu::noinline]] inline bool ref_raises(Fn fn, Arg const& a)
+{
+    std::feclearexcept(FE_ALL_EXCEPT);
+    Arg const l  = launder(a); // volatile reads: evaluated after the flags were cleared
+    T volatile r = fn(l);
+    (void)r;
+    return std::fetestexcept(FE_INVALID | FE_OVERFLOW | FE_UNDERFLOW | FE_DIVBYZERO) != 0;
 }
 #define C13_BX(ID, CALL)                                                                                               \
     struct ID {                                                                                                        \
         static constexpr char const* name = #CALL;                                                                     \
         static bool raises_fp_exception(Args<T, 2> const& p)                                                           \
         {                                                                                                              \
-            return fp_exception(std::CALL(p.a[0], p.a[1]), p.a[0], p.a[1]);                                            \
+            return ref_raises([](Args<T, 2> const& q) { return std::CALL(q.a[0], q.a[1]); }, p);                       \
         }                                                                                                              \
         constexpr auto operator()(Args<T, 2> const& p) const { return etl::CALL(p.a[0], p.a[1]); }                     \
     };
@@ -350,78 +372,52 @@ struct F_fma {
     static constexpr char const* name = "fma";
     static bool raises_fp_exception(Args<T, 3> const& p)
     {
-        return fp_exception(lib_fma(p.a[0], p.a[1], p.a[2]), p.a[0], p.a[1], p.a[2]);
+        return ref_raises([](Args<T, 3> const& q) { return lib_fma(q.a[0], q.a[1], q.a[2]); }, p);
     }
     constexpr auto operator()(Args<T, 3> const& p) const { return etl::fma(p.a[0], p.a[1], p.a[2]); }
 };
 
-template <typename F, auto const& Tab, typename Cls>
-TwinStats go(char const* subject)
+std::string subj(char const* fn) { return std::string(fn) + "<" + FpName<T>::v + ">"; }
+#define E1(FN, F) make_entry<F, tab1, Cls1, 64>(subj(FN))
+#define E2(FN, F) make_entry<F, tab2, Cls2, 64>(subj(FN))
+#define E3(FN, F) make_entry<F, tab3, Cls3, 64>(subj(FN))
+
+std::vector<Entry> const& entries()
 {
-    return run_twin<F, Tab, Cls>(subject);
-}
-
-#define E1(F) Entry{nullptr, &go<F, tab1, Cls1>}
-#define E2(F) Entry{nullptr, &go<F, tab2, Cls2>}
-#define E3(F) Entry{nullptr, &go<F, tab3, Cls3>}
-
-struct Named {
-    char const* fn;
-    Entry e;
-};
-
-Named const entries[] = {
+    static std::vector<Entry> const es = {
 #if C13_GRP == 0
-    {"floor", E1(F_floor)},
-    {"ceil", E1(F_ceil)},
-    {"trunc", E1(F_trunc)},
+        E1("floor", F_floor), E1("ceil", F_ceil), E1("trunc", F_trunc),
 #elif C13_GRP == 1
-    {"round", E1(F_round)},
-    {"rint", E1(F_rint)},
+        E1("round", F_round), E1("rint", F_rint),
 #elif C13_GRP == 2
-    {"lrint", E1(F_lrint)},
-    {"llrint", E1(F_llrint)},
+        E1("lrint", F_lrint), E1("llrint", F_llrint),
 #elif C13_GRP == 3
-    {"signbit", E1(F_signbit)},
-    {"isnan", E1(F_isnan)},
-    {"isinf", E1(F_isinf)},
-    {"isfinite", E1(F_isfinite)},
-    {"fabs", E1(F_fabs)},
-    {"abs", E1(F_abs)},
+        E1("signbit", F_signbit), E1("isnan", F_isnan), E1("isinf", F_isinf), E1("isfinite", F_isfinite), E1("fabs", F_fabs), E1("abs", F_abs),
 #elif C13_GRP == 4
-    {"copysign", E2(F_copysign)},
-    {"fmin", E2(F_fmin)},
-    {"fmax", E2(F_fmax)},
-    {"fdim", E2(F_fdim)},
+        E2("copysign", F_copysign), E2("fmin", F_fmin), E2("fmax", F_fmax), E2("fdim", F_fdim),
 #elif C13_GRP == 5
-    {"fmod", E2(F_fmod)},
-    {"remainder", E2(F_remainder)},
+        E2("fmod", F_fmod), E2("remainder", F_remainder),
     #if !defined(C13_NO_NEXTAFTER)
-    {"nextafter", E2(F_nextafter)},
+        E2("nextafter", F_nextafter),
     #endif
 #elif C13_GRP == 6
-    {"fma", E3(F_fma)},
+        E3("fma", F_fma),
 #endif
-};
-constexpr std::size_t n_entries = sizeof entries / sizeof entries[0];
+    };
+    return es;
+}
 
 vf::Spec spec(vf::Tier)
 {
     vf::Spec s;
-    s.n_enum     = n_entries;
+    s.n_enum     = total_cases(entries());
     s.n_random   = 0;
     s.batch      = 1;
     s.exhaustive = true; // complete enumeration of the stated finite tables
     return s;
 }
 
-void run_case(vf::Case& c)
-{
-    Named const& nm = entries[c.index];
-    char subject[96];
-    std::snprintf(subject, sizeof subject, "%s<%s>", nm.fn, FpName<T>::v);
-    nm.e.run(subject);
-}
+void run_case(vf::Case& c) { run_case_index(entries(), c.index); }
 
 } // namespace
 
